@@ -1,14 +1,14 @@
 #!/usr/bin/env python3
 """copies a sub-agent's deliverables <src>/<ID>/{A,B}.diff, demo_{A,B}.py, meta.json into seeded/<ID>-<name>/
-usage: import_seeded.py [--round 2] ID...   (round 1: /tmp/seed/out, names A,B; round 2: /tmp/seed2/out, names C,D)"""
+usage: import_seeded.py [--round 2] ID...   (round 1: /tmp/seed/out, names A,B; round 2: /tmp/seed2/out, names C,D; round 3: /tmp/seed3/out, names E,F)"""
 import json, os, shutil, sys
 HERE = os.path.dirname(os.path.dirname(os.path.abspath(__file__)))
 args = sys.argv[1:]
 rnd = 1
 if args and args[0] == '--round':
     rnd = int(args[1]); args = args[2:]
-SRC = {1: '/tmp/seed/out', 2: '/tmp/seed2/out'}[rnd]
-NAMES = {1: {'A': 'A', 'B': 'B'}, 2: {'A': 'C', 'B': 'D'}}[rnd]
+SRC = {1: '/tmp/seed/out', 2: '/tmp/seed2/out', 3: '/tmp/seed3/out'}[rnd]
+NAMES = {1: {'A': 'A', 'B': 'B'}, 2: {'A': 'C', 'B': 'D'}, 3: {'A': 'E', 'B': 'F'}}[rnd]
 for prop in args:
     src = f'{SRC}/{prop}'
     meta = json.load(open(os.path.join(src, 'meta.json'))) if os.path.exists(os.path.join(src, 'meta.json')) else {'changes': []}
@@ -18,10 +18,10 @@ for prop in args:
         dst = os.path.join(HERE, 'seeded', f'{prop}-{NAMES[name]}')
         os.makedirs(dst, exist_ok=True)
         shutil.copy(os.path.join(src, f'{name}.diff'), os.path.join(dst, 'patch.diff'))
-        demo = open(os.path.join(src, f'demo_{name}.py')).read().replace('/tmp/seed2/', '/tmp/seed/')
+        demo = open(os.path.join(src, f'demo_{name}.py')).read().replace('/tmp/seed2/', '/tmp/seed/').replace('/tmp/seed3/', '/tmp/seed/')
         open(os.path.join(dst, 'demo.py'), 'w').write(demo)
         ch = [c for c in meta.get('changes', []) if c.get('name') == name]
         json.dump({'property': prop, 'name': NAMES[name], 'round': rnd,
-                   'author': 'fresh sub-agent given only the property record' + (' and a list of the changes already tried in round 1' if rnd == 2 else '') + ' and a scratch worktree',
+                   'author': 'fresh sub-agent given only the property record' + (' and a list of the changes already tried in the earlier rounds' if rnd >= 2 else '') + ' and a scratch worktree',
                    'claimed_by_author': ch[0] if ch else {}}, open(os.path.join(dst, 'meta.json'), 'w'), indent=1)
         print('imported', dst)
